@@ -158,8 +158,9 @@ def run():
         for i, pr in enumerate(mcprogs):
             path = os.path.join(wd, "mcp-%d.ndjson" % i)
             open(path, "w").write(json.dumps(pr["prog"]) + "\n")
-            e = dict(os.environ, MCPROG=path, JAVA_TOOL_OPTIONS="-Xss1g -Xmx4g -Djava.io.tmpdir=%s" % wd)
-            pp = subprocess.run(["timeout", "900", "tlc", "-workers", "4", "-metadir", os.path.join(wd, "meta-mc"), "-cleanup",
+            e = dict(os.environ, MCPROG=path)
+            pp = subprocess.run(["timeout", "900", "java", "-Xss1g", "-Xmx4g", "-Djava.io.tmpdir=%s" % wd, "-XX:+UseParallelGC", "-cp", lib.TLC_CP,
+                                 "tlc2.TLC", "-workers", "4", "-metadir", os.path.join(wd, "meta-mc"), "-cleanup",
                                  "-noGenerateSpecTE", "-config", cfg, "InkHostMC.tla"], cwd=specdir, env=e, capture_output=True, text=True)
             subprocess.run(["rm", "-rf", os.path.join(wd, "meta-mc")])
             bad_inv |= set(re.findall(r"Invariant (\w+) is violated", pp.stdout))
